@@ -10,16 +10,16 @@ import (
 
 // Verdict is the result of comparing anko against the model on one program.
 type Verdict struct {
-	Src       string
-	Excluded  string   // non-empty: the program left the specified domain (counted, not judged)
-	Out       *Outcome // model outcome under the code's current parameterisation (or the matching one)
-	Cfg       Cfg
-	OK        bool
-	Clause    string // which observation differed (trace / error / value / bindings / host-panic)
-	Detail    string
-	GotTrace  []string
-	GotErr    error
-	GotValue  interface{}
+	Src      string
+	Excluded string   // non-empty: the program left the specified domain (counted, not judged)
+	Out      *Outcome // model outcome under the code's current parameterisation (or the matching one)
+	Cfg      Cfg
+	OK       bool
+	Clause   string // which observation differed (trace / error / value / bindings / host-panic)
+	Detail   string
+	GotTrace []string
+	GotErr   error
+	GotValue interface{}
 }
 
 const ModelBudget = 40000
